@@ -939,7 +939,7 @@ def has_ignore_comment(source: str, rng: Range) -> bool:
     pattern = re.compile(r"#\s*pyrefact\s*:\s*(skip_file|ignore)")
 
     character_count = 0
-    for line in source.splitlines(keepends=True):
+    for line in _split_lines(source):  # Physical lines: a form feed does not end one
         line_start = character_count
         line_end = character_count = line_start + len(line)
 
